@@ -7,8 +7,22 @@
 #include <google/protobuf/io/zero_copy_stream.h>
 using namespace babylon;
 using google::protobuf::io::CodedInputStream; using google::protobuf::io::CodedOutputStream;
+#ifndef VF_SHAPE
+#define VF_SHAPE 0
+#endif
+#if VF_SHAPE == 0      // one unsigned 64-bit field
+struct Inner { uint32_t u; int64_t s; };
+struct Agg { uint64_t a; int32_t b; bool c; Inner in; BABYLON_COMPATIBLE((a, 1)) };
+#elif VF_SHAPE == 1    // signed 32-bit (negative values take 10 bytes) + bool
+struct Inner { uint32_t u; int64_t s; };
+struct Agg { uint64_t a; int32_t b; bool c; Inner in; BABYLON_COMPATIBLE((b, 2)(c, 3)) };
+#elif VF_SHAPE == 2    // nested aggregate (length-delimited) after a scalar
+struct Inner { uint32_t u; int64_t s; BABYLON_COMPATIBLE((u, 1)) };
+struct Agg { uint64_t a; int32_t b; bool c; Inner in; BABYLON_COMPATIBLE((c, 3)(in, 5)) };
+#else                  // everything
 struct Inner { uint32_t u; int64_t s; BABYLON_COMPATIBLE((u, 1)(s, 2)) };
 struct Agg { uint64_t a; int32_t b; bool c; Inner in; BABYLON_COMPATIBLE((a, 1)(b, 2)(c, 3)(in, 5)) };
+#endif
 struct ArrOut : public google::protobuf::io::ZeroCopyOutputStream {
   uint8_t* data; int size; int pos {0};
   ArrOut(uint8_t* d, int n) : data(d), size(n) {}
@@ -22,7 +36,17 @@ struct ArrOut : public google::protobuf::io::ZeroCopyOutputStream {
 uint8_t out[96]; uint8_t out2[96]; uint8_t* in;
 extern "C" void vf_init() { in = new uint8_t[VF_INLEN]; }
 static size_t ref_varint(uint8_t* p, uint64_t v) { size_t n = 0; while (v >= 0x80) { p[n++] = (uint8_t)(v | 0x80); v >>= 7; } p[n++] = (uint8_t)v; return n; }
-static bool same(const Agg& x, const Agg& y) { return x.a == y.a && x.b == y.b && x.c == y.c && x.in.u == y.in.u && x.in.s == y.in.s; }
+static bool same(const Agg& x, const Agg& y) {
+#if VF_SHAPE == 0
+  return x.a == y.a;
+#elif VF_SHAPE == 1
+  return x.b == y.b && x.c == y.c;
+#elif VF_SHAPE == 2
+  return x.c == y.c && x.in.u == y.in.u;
+#else
+  return x.a == y.a && x.b == y.b && x.c == y.c && x.in.u == y.in.u && x.in.s == y.in.s;
+#endif
+}
 static int ser(const Agg& x, uint8_t* buf, int cap) {
   size_t n = Serialization::calculate_serialized_size(x);
   if ((int)n > cap) return -1;
@@ -34,8 +58,10 @@ extern "C" void vf_thread_0() {
   Agg x; x.a = vf_nondet64(); x.b = (int32_t)vf_nondet64(); x.c = vf_nondet64() & 1; x.in.u = (uint32_t)vf_nondet64(); x.in.s = (int64_t)vf_nondet64();
   int n = ser(x, out, 96); vf_check(n >= 0, 2);                              // predicted size == bytes produced (checked in ser)
   // wire compatibility: field 1 (uint64 a) is the protobuf varint encoding, absent when default
+#if VF_SHAPE == 0 || VF_SHAPE == 3
   if (x.a != 0) { uint8_t ref[12]; ref[0] = 0x08; size_t k = 1 + ref_varint(ref + 1, x.a); vf_check((size_t)n >= k, 3); for (size_t i = 0; i < k && i < 11; ++i) vf_check(out[i] == ref[i], 3); }
-  Agg y; y.a = 1; y.b = 1; y.c = true; y.in.u = 1; y.in.s = 1;
+#endif
+  Agg y; y.a = 0; y.b = 0; y.c = false; y.in.u = 0; y.in.s = 0;       // a fresh object
   { CodedInputStream is(out, n); bool ok = Serialization::parse_from_coded_stream(is, y); vf_check(ok, 4); }
   vf_check(same(x, y), 4);                                                   // round trip (absent fields read back as defaults)
 }
@@ -49,7 +75,7 @@ extern "C" void vf_thread_0() {
   { CodedInputStream is(input, (int)len); ok = Serialization::parse_from_coded_stream(is, y); }       // must terminate, stay in bounds
   if (ok) {                                                                  // success => canonical re-encoding parses back to itself
     int n = ser(y, out, 96); vf_check(n >= 0, 5);
-    Agg z; z.a = 1; z.b = 1; z.c = true; z.in.u = 1; z.in.s = 1;
+    Agg z; z.a = 0; z.b = 0; z.c = false; z.in.u = 0; z.in.s = 0;
     { CodedInputStream is(out, n); bool ok2 = Serialization::parse_from_coded_stream(is, z); vf_check(ok2, 6); }
     vf_check(same(y, z), 6);
   }
